@@ -1,0 +1,114 @@
+package spec
+
+import (
+	"strings"
+
+	"github.com/moorara/algo/generic"
+	"github.com/moorara/algo/grammar"
+	"github.com/moorara/algo/parser/lr"
+	"github.com/moorara/algo/parser/lr/lookahead"
+	"github.com/moorara/algo/sort"
+)
+
+// buildLALRParsingTable constructs a parsing table for an LALR parser.
+//
+// It follows lookahead.BuildParsingTable, except for the way the state of GOTO(I,X) is looked up.
+// The lookahead package takes the first state whose set of items is a superset of GOTO(I,X).
+// When the kernel of one state is contained in the kernel of another state
+// (for example {A → "x"•} and {S → "y" "x"•B, A → "x"•}), that is the wrong state,
+// and the resulting table accepts strings that are not sentences of the grammar and rejects sentences.
+// In the LALR(1) collection every core appears exactly once, so the state is the one with the same core as GOTO(I,X).
+func buildLALRParsingTable(G *grammar.CFG, precedences lr.PrecedenceLevels) (*lr.ParsingTable, error) {
+	G1 := lr.NewGrammarWithLR1Kernel(G)
+
+	K := lookahead.ComputeLALR1Kernels(G) // Construct the kernels of the LALR(1) collection of sets of items for G′.
+	S := lr.BuildStateMap(K)              // Map sets of LALR(1) items to state numbers.
+
+	// Map the core of each set of LALR(1) items to its state number.
+	cores := make(map[string]lr.State, len(S))
+	for s, I := range S.All() {
+		cores[coreOf(I)] = s
+	}
+
+	findState := func(J lr.ItemSet) lr.State {
+		if J.Size() == 0 {
+			return lr.ErrState
+		}
+
+		if s, ok := cores[coreOf(J)]; ok {
+			return s
+		}
+
+		return lr.ErrState
+	}
+
+	terminals := G1.OrderTerminals()
+	_, _, nonTerminals := G1.OrderNonTerminals()
+	table := lr.NewParsingTable(S.States(), terminals, nonTerminals, precedences)
+
+	for i, I := range S.All() {
+		for item := range G1.CLOSURE(I).All() {
+			item := item.(*lr.Item1)
+
+			// If "A → α•aβ, b" is in Iᵢ and GOTO(Iᵢ,a) = Iⱼ (a must be a terminal), set ACTION[i,a] to SHIFT j.
+			if X, ok := item.DotSymbol(); ok {
+				if a, ok := X.(grammar.Terminal); ok {
+					table.AddACTION(i, a, &lr.Action{
+						Type:  lr.SHIFT,
+						State: findState(G1.GOTO(I, a)),
+					})
+				}
+			}
+
+			// If "A → α•, a" is in Iᵢ (A ≠ S′), set ACTION[i,a] to REDUCE A → α.
+			if item.IsComplete() && !item.IsFinal() {
+				table.AddACTION(i, item.Lookahead, &lr.Action{
+					Type:       lr.REDUCE,
+					Production: item.Production,
+				})
+			}
+
+			// If "S′ → S•, $" is in Iᵢ, set ACTION[i,$] to ACCEPT.
+			if item.IsFinal() {
+				table.AddACTION(i, grammar.Endmarker, &lr.Action{
+					Type: lr.ACCEPT,
+				})
+			}
+		}
+
+		// If GOTO(Iᵢ,A) = Iⱼ, set GOTO[i,A] = j.
+		for A := range G1.NonTerminals.All() {
+			if !A.Equal(G1.Start) {
+				table.SetGOTO(i, A, findState(G1.GOTO(I, A)))
+			}
+		}
+	}
+
+	// Try resolving any conflicts in the ACTION parsing table.
+	if err := table.ResolveConflicts(); err != nil {
+		return table, err
+	}
+
+	return table, nil
+}
+
+// coreOf returns a canonical representation of the core of a set of LR(1) items,
+// that is the set of LR(0) items obtained by dropping the lookaheads.
+func coreOf(I lr.ItemSet) string {
+	seen := map[string]bool{}
+
+	for item := range I.All() {
+		if item, ok := item.(*lr.Item1); ok {
+			seen[item.Item0().String()] = true
+		}
+	}
+
+	items := make([]string, 0, len(seen))
+	for item := range seen {
+		items = append(items, item)
+	}
+
+	sort.Quick(items, generic.NewCompareFunc[string]())
+
+	return strings.Join(items, "\n")
+}
